@@ -127,7 +127,9 @@ impl<'a> TypingContext<'a> {
     &self,
     identifier: PStr,
   ) -> Option<&NominalType> {
-    self.available_type_parameters.iter().find(|it| it.name == identifier).unwrap().bound.as_ref()
+    // The type parameter can be out of scope when an earlier error left a generic type of another
+    // class unsubstituted (e.g. a type argument arity error); such a type has no usable bound.
+    self.available_type_parameters.iter().find(|it| it.name == identifier)?.bound.as_ref()
   }
 
   pub(crate) fn nominal_type_upper_bound(&'a self, type_: &'a Type) -> Option<&'a NominalType> {
